@@ -410,6 +410,30 @@ def job_array(job, variants=(("f8", False), ("i8", False), ("i8", True), ("f8", 
             job.errors.append(f"array[{tagv}]: expected the three orderings around the bubble point, got {sorted(seen)}")
 
 
+def replay_array_f32(model):
+    """float32 pressure grids (a memory-saving dtype) with the initial GOR an np.float64 that float32 storage rounds down
+    (650.3, 1210.1) or up (412.7): every element against the scalar call, at float32 accuracy."""
+    import numpy as np
+    from bluebonnet.fluids import oil
+    m = model_floats(model, ["T", "api", "gg"], default=dict(T=200.0, api=35.0, gg=0.8))
+    problems = []
+    for rsi in (np.float64(650.3), np.float64(1210.1), np.float64(412.7)):
+        pb = float(oil.pressure_bubblepoint_Standing(m["T"], m["api"], m["gg"], float(rsi)))
+        if not pb > 60:
+            continue
+        qs = np.array([0.3 * pb, 0.8 * pb, 1.3 * pb, 2.4 * pb], dtype=np.float32)
+        with np.errstate(all="ignore"):
+            rs = np.asarray(oil.solution_gor_Standing(m["T"], qs, m["api"], m["gg"], rsi), float)
+            bo = np.asarray(oil.b_o_Standing(m["T"], qs, m["api"], m["gg"], rsi), float)
+        for j, q in enumerate(qs):
+            for nm, got, f in (("R_s", rs, oil.solution_gor_Standing), ("B_o", bo, oil.b_o_Standing)):
+                want = float(f(m["T"], float(q), m["api"], m["gg"], float(rsi)))
+                if got.shape != qs.shape or not abs(float(got[j]) - want) <= 2e-4 * abs(want):
+                    problems.append(f"float32 pressures {qs.tolist()}, R_si = np.float64({float(rsi)!r}), p_b = {pb!r}: {nm}[{j}] = "
+                                    f"{float(got[j]) if got.shape == qs.shape else got!r}, the scalar call at that pressure gives {want!r}")
+    return bool(problems), {"what": "; ".join(problems[:2]) or "float32 grids agree with the scalar calls", "inputs": m}
+
+
 def replay_array3(model):
     """Three pressures in arbitrary order through the array entry point of solution_gor_Standing (and B_o): element by
     element the plateau above and the inverse pair below the bubble point."""
@@ -435,6 +459,11 @@ def replay_array3(model):
                 if abs(back - q) > 1e-8 * q:
                     problems.append(f"pressures {qs}: p_b(R_s[{j}]) = {back!r} for p = {q!r} below the bubble point {pb!r}")
     return bool(problems), {"what": "; ".join(problems[:2]) or "element-wise orderings hold", "inputs": m}
+
+
+# concrete replays run on the real code when the changed code uses something the engine does not model (harness.finish);
+# float32 storage rounding is outside the engine's real-number model, so the float32 grid is exercised here only
+FALLBACK = [(replay_array_f32, {}), (replay_array3, {})]
 
 
 def job_array3(job):
